@@ -31,6 +31,7 @@ ValsT(ty) == CASE ty = "u8"    -> {FV(TRUE, 7, <<>>, <<>>), FV(TRUE, 200, <<>>, 
                [] ty = "eu"    -> {FV(TRUE, 0, <<>>, [var |-> 1, fv |-> <<>>]), FV(TRUE, 0, <<>>, [var |-> 2, fv |-> <<>>])}
                [] ty = "eux"   -> {FV(TRUE, 0, <<>>, [var |-> 2, fv |-> <<>>]), FV(TRUE, 0, <<>>, [var |-> 3, fv |-> <<>>]), FV(TRUE, 0, <<>>, [var |-> 4, fv |-> <<FV(TRUE, 9, <<>>, <<>>)>>])}
                [] ty \in CodTys -> {FV(TRUE, 7, <<>>, <<>>), FV(TRUE, 24, <<>>, <<>>)}
+               [] ty = "oo"    -> {FV(TRUE, 7, <<>>, <<>>), FV(TRUE, OoNone, <<>>, <<>>)}
                [] ty = "iox"   -> {FV(TRUE, 0, <<>>, [var |-> 1, fv |-> <<>>]), FV(TRUE, 0, <<>>, [var |-> 3, fv |-> <<>>])}
 ValsF(f) == IF f.skip THEN {FV(TRUE, 0, <<>>, <<>>)}
             ELSE IF f.ty = "cu" THEN ValsT("cu") \cup (IF f.opt THEN {FV(TRUE, CuNil, <<>>, <<>>)} ELSE {})
@@ -136,6 +137,10 @@ ReadersOf(S) == IF S \in EnumHosts THEN HostReaders(S)
 \* writers with a field of arbitrary content that the reader does not know: in the middle (a gap / an unknown key) and at the end (surplus)
 AnyWriters == { Struct(e, -1, "named", <<F(0, FALSE, -1, "u8"), F(k, TRUE, -1, "any"), F(5, TRUE, -1, "str")>>) : e \in Encs, k \in {2, 9} }
 AnyReaders(S) == { DropField(S, 2) }
+\* nested options: in the middle, at the end (a trailing Some(None) is a present null, not trimmed), tagged, in a variant - encoder side only
+EncOnly == { Struct(e, -1, sh, <<F(0, FALSE, -1, "u8"), F(1, TRUE, t, "oo"), F(3, TRUE, -1, "u8")>>) : e \in Encs, sh \in {"named", "tuple"}, t \in {-1, 7} }
+           \cup { Struct(e, -1, "named", <<F(0, TRUE, -1, "u8"), F(2, TRUE, -1, "oo")>>) : e \in Encs }
+           \cup { Enum(e, -1, FALSE, <<Variant(0, e, -1, "unit", <<>>), Variant(1, ve, -1, "named", <<F(0, FALSE, -1, "u8"), F(1, TRUE, -1, "oo")>>)>>) : e \in Encs, ve \in Encs }
 Init == ph = "fam" /\ wsch = Big("map") /\ wv = <<>> /\ rsch = Big("map")
 Next == \/ ph = "fam" /\ wsch' \in Family /\ ph' = "val" /\ UNCHANGED <<wv, rsch>>
         \/ ph = "fam" /\ wsch' \in {Big("map"), Big("array")} /\ wv' \in BigVals /\ rsch' = wsch' /\ ph' = "done"
@@ -146,10 +151,13 @@ Next == \/ ph = "fam" /\ wsch' \in Family /\ ph' = "val" /\ UNCHANGED <<wv, rsch
         \/ ph = "fam" /\ wsch' \in AnyWriters /\ ph' = "aval" /\ UNCHANGED <<wv, rsch>>
         \/ ph = "aval" /\ wv' \in ValsS(wsch) /\ ph' = "apair" /\ UNCHANGED <<wsch, rsch>>
         \/ ph = "apair" /\ rsch' \in AnyReaders(wsch) /\ ph' = "adone" /\ UNCHANGED <<wsch, wv>>
+        \/ ph = "fam" /\ wsch' \in EncOnly /\ ph' = "eval" /\ UNCHANGED <<wv, rsch>>
+        \/ ph = "eval" /\ wv' \in ValsS(wsch) /\ rsch' = wsch /\ ph' = "edone" /\ UNCHANGED wsch
 Case(name, in, exp) == PrintT(<<"CASE", ToJson([fam |-> "derive", name |-> name, in |-> in, exp |-> exp])>>)
 DecExp(w, r, v, b) == LET p == Project(w, r, v) IN
    IF p[1] = "ok" THEN [ok |-> TRUE, val |-> p[2], pos |-> Len(b), bor |-> TRUE] ELSE [ok |-> FALSE, val |-> <<>>, pos |-> 0, bor |-> TRUE]
-Emit == /\ (ph' = "done") =>
+Emit == /\ (ph' = "edone") => LET b == DocEnc(wsch', wv') IN Case("enc", [schema |-> wsch', val |-> wv'], [bytes |-> b, len |-> Len(b)])
+        /\ (ph' = "done") =>
              LET b == DocEnc(wsch', wv') IN
              /\ Case("enc", [schema |-> wsch', val |-> wv'], [bytes |-> b, len |-> Len(b)])
              /\ Case("dec", [schema |-> wsch', bytes |-> b, rel |-> "same"], DecExp(wsch', wsch', wv', b))
@@ -198,7 +206,7 @@ Emit == /\ (ph' = "done") =>
 B == DocEnc(wsch, wv)
 Done == ph = "done"
 \* the documented encoding of every value is one well-formed item in preferred form
-DocWellFormed == Done => WellFormedItem(B) /\ IsPreferred(B)
+DocWellFormed == (Done \/ ph = "edone") => WellFormedItem(B) /\ IsPreferred(B)
 \* reading back with the same schema gives the same value (skipped fields at their default)
 SelfProject == Done => Project(wsch, wsch, wv) = <<"ok", wv>>
 \* a compatible reader never fails on what the writer wrote, unless the top-level type is an enum
